@@ -536,6 +536,9 @@ class CxxParser:
     def _on_block_end(self, tok: LexToken, doxygen: typing.Optional[str]) -> None:
         old_state = self._pop_state()
         if isinstance(old_state, ClassBlockState):
+            # anything emitted for the tail of the class declaration (such as
+            # the field of an anonymous struct) is located at its closing brace
+            self.state.location = tok.location
             self._finish_class_decl(old_state)
 
     #
